@@ -435,7 +435,7 @@ func init() {
 			l := fw.NewCaseList("C07", tier, seed)
 			rng := l.Rng()
 			packs := []uint64{1, 2, 100, 1024, 65536, 0}
-			for i := 0; i < l.N(150, 2500); i++ {
+			for i := 0; i < l.N(150, 15000); i++ {
 				p := c07Params{N: 1 + rng.Intn(12), BaseRows: []int{4, 30, 300, 600}[rng.Intn(4)], MaxPack: packs[rng.Intn(len(packs))], Finder: rng.Intn(2) == 0}
 				if rng.Intn(5) == 0 {
 					p.Hostile = []string{"commit-before-parent", "table-before-block"}[rng.Intn(2)]
